@@ -141,6 +141,13 @@ func (r *Report) Finish() int {
 		}
 		fmt.Printf("KNOWN-FINDING: property=%s key=%s (%d hit) %s\n", r.ID, k, len(known[k]), what)
 	}
+	if kp := os.Getenv("VERIF_ALLKEYS"); kp != "" {
+		var sb strings.Builder
+		for _, v := range fresh {
+			sb.WriteString(v.Key + "\n")
+		}
+		_ = os.WriteFile(kp, []byte(sb.String()), 0o644)
+	}
 	// remove stale replay files of this property
 	old, _ := filepath.Glob(filepath.Join(evdir, "replay", r.ID+"-*.json"))
 	for _, o := range old {
